@@ -591,13 +591,25 @@ func applyMessageModel(fr *frame, args []value) value {
 	i.callMethod(fr, sdbI, "PrepareAccessList", fromA, toPtr, pcs, []value(nil))
 	targetA := addrArray(target)
 	var vmErr string
-	gasLeft := c.nondet("evm.gasLeft", kU64)
-	c.assume(Le(gasLeft, left))
 	msdb, _ := unwrapModelSDB(sdbI)
+	// gas left is an arbitrary but *deterministic* function of the transaction:
+	// one variable per transaction hash, shared by replicas that run the same tx
+	gname := "evm.gasLeft"
+	if msdb != nil && msdb.thash != nil {
+		if bz, ok := concreteBytes(msdb.thash); ok {
+			gname = fmt.Sprintf("evm.gasLeft:%x", bz[:6])
+		}
+	}
+	gasLeft, seen := c.nondets[gname]
+	if !seen {
+		gasLeft = c.nondet(gname, kU64)
+	}
+	c.assume(Le(gasLeft, left))
 	// evmCall mirrors vm.EVM.Call for the abstract programs:
 	//   0 STOP | 1 CALL(third, value 1) then STOP | 2 CALL then REVERT | 4 CALL then INVALID
+	//   5 CALL(third, 0), CALL(third, 1), STOP | 6 REVERT if called without value else STOP
 	var evmCall func(caller, addr array, val *Term, depth int) string
-	runProgram := func(self array, depth int) string {
+	runProgram := func(self array, callValue *Term, depth int) string {
 		if msdb == nil {
 			return ""
 		}
@@ -605,11 +617,27 @@ func applyMessageModel(fr *frame, args []value) value {
 		if !ac.hasCode || ac.program == 0 || depth > 3 {
 			return ""
 		}
-		tgt := addrArray(ac.third)
-		if inList := i.callMethod(fr, sdbI, "AddressInAccessList", tgt); inList == false {
-			i.callMethod(fr, sdbI, "AddAddressToAccessList", tgt)
+		if ac.program == 6 {
+			// callee that REVERTs when called without value and STOPs otherwise
+			if c.branch(Eq(callValue, IntConst64(0))) {
+				return "execution reverted"
+			}
+			return ""
 		}
-		_ = evmCall(self, tgt, IntConst64(1), depth+1) // result ignored by the program
+		tgt := addrArray(ac.third)
+		callOnce := func(v int64) {
+			if inList := i.callMethod(fr, sdbI, "AddressInAccessList", tgt); inList == false {
+				i.callMethod(fr, sdbI, "AddAddressToAccessList", tgt)
+			}
+			_ = evmCall(self, tgt, IntConst64(v), depth+1) // result ignored by the program
+		}
+		if ac.program == 5 {
+			// call third with value 0, then again with value 1, STOP
+			callOnce(0)
+			callOnce(1)
+			return ""
+		}
+		callOnce(1)
 		switch ac.program {
 		case 2:
 			return "execution reverted"
@@ -630,7 +658,7 @@ func applyMessageModel(fr *frame, args []value) value {
 			i.callMethod(fr, sdbI, "CreateAccount", addr)
 		}
 		call(i, fr, token.NoPos, trFn, []value{sdbI, caller, addr, mkBig(val)})
-		errS := runProgram(addr, depth)
+		errS := runProgram(addr, val, depth)
 		if errS != "" {
 			i.callMethod(fr, sdbI, "RevertToSnapshot", sn)
 		}
@@ -704,11 +732,13 @@ func parseProgram(data []value) (int, string, bool) {
 	switch id {
 	case 0:
 		return 0, "", true
-	case 1, 2, 4:
+	case 1, 2, 4, 5:
 		if len(rt) < 37 {
 			return 0, "", false
 		}
 		return id, string(rt[14:34]), true
+	case 6:
+		return 6, "", true
 	}
 	return 0, "", false
 }
